@@ -124,6 +124,11 @@ def c18_tasks():
             for desc, key in (("None", None), ("float", VFloat(z3.Const("kf", I), "py")), ("tuple", (1,)), ("bytes", b"a"), ("item", o.fields[fld].at(z3.Const("kk", I)))):
                 oc = _outcome(interp, lambda: interp.call(f, [o, key], {}))
                 ctx.oblige(f"C18.{name}.keytype.{desc}_raises_TypeError", oc[0] == "raise" and oc[1].cls.is_subclass(EXC["TypeError"]), kind="C18")
+            c = _method(interp, name, "__contains__")
+            interp.inline_only.add(c.qualname)
+            for desc, key in (("None", None), ("float", VFloat(z3.Const("kf2", I), "py")), ("tuple", (1,)), ("bytes", b"a"), ("int", z3.Const("ki2", I))):
+                oc = _outcome(interp, lambda: interp.call(c, [o, key], {}))
+                ctx.oblige(f"C18.{name}.keytype.membership_of_{desc}_raises_TypeError", oc[0] == "raise" and oc[1].cls.is_subclass(EXC["TypeError"]), kind="C18")
             _no_writes(interp, f"C18.{name}.keytype", w0)
         out.append(Task(f"C18.{name}.keytype", SPECS[name].cls + ".__getitem__", ["C18"], t_keytype, kind="obj"))
     return out
@@ -162,8 +167,10 @@ def c16_tasks():
             f = _method(interp, name, add)
             interp.inline_only.add(f.qualname)
             w0 = len(interp.writes)
+            n_block = o.fields[nattr]                  # the block's own frame count BEFORE the call
             oc = _outcome(interp, lambda: interp.call(f, [o, x], {}))
-            good = And(is_track, eq(nt, o.fields[nattr]))
+            good = And(is_track, eq(nt, n_block))
+            ctx.oblige(f"C16.{name}.{add}.block_frame_count_unchanged", o.fields[nattr] is n_block or eq(o.fields[nattr], n_block), kind="C16")
             if oc[0] == "raise":
                 ctx.oblige(f"C16.{name}.{add}.refuses_only_invalid_items({oc[1].cls.name})", Not(good), kind="C16")
                 _no_writes(interp, f"C16.{name}.{add}.refused_add", w0)
@@ -201,9 +208,11 @@ def c16_tasks():
             f = prop.fset
             interp.inline_only.add(f.qualname)
             epoch0 = ctx.epoch
+            n_block = o.fields[nattr]                  # the block's own frame count BEFORE the call
             oc = _outcome(interp, lambda: interp.call(f, [o, vals], {}))
             j = ctx.fresh_const("pos")
-            good = lambda k: And(tr(k), fr(k) == o.fields[nattr])
+            good = lambda k: And(tr(k), fr(k) == n_block)
+            ctx.oblige(f"C16.{name}.assign.block_frame_count_unchanged", o.fields[nattr] is n_block or eq(o.fields[nattr], n_block), kind="C16")
             now = o.fields[fld]
             if oc[0] == "raise":
                 ctx.oblige(f"C16.{name}.assign.raises_only_if_some_element_is_invalid", z3.Exists([j], zbool(And(rng(0, j, nv), Not(good(j))))), kind="C16")
